@@ -156,6 +156,29 @@ def load_known(prop: str) -> tuple[dict, list]:
     return open_, fixed
 
 
+STALL_SECONDS = int(os.environ.get("TLV_STALL_SECONDS", "5400"))
+
+
+def _completed_or_stalled(pool, futs, fut_item, items, prop):
+    """as_completed with a watchdog: when no work item finishes for STALL_SECONDS the explorer
+    itself is stuck (e.g. the implementation hangs inside a work item that has no time-out of
+    its own).  That is reported as a harness error naming the unfinished items - never silently
+    waited out - and the worker processes are killed."""
+    from concurrent.futures import FIRST_COMPLETED, wait  # noqa: PLC0415
+
+    pending = set(futs)
+    while pending:
+        done, pending = wait(pending, timeout=STALL_SECONDS, return_when=FIRST_COMPLETED)
+        if not done:
+            stuck = [json.dumps(items[fut_item[f]], default=str)[:200] for f in pending if f.running()][:5]
+            print(f"HARNESS-ERROR property={prop}: no work item finished within {STALL_SECONDS} s; still running: {stuck}")
+            for proc in list(getattr(pool, "_processes", {}).values()):
+                proc.kill()
+            sys.stdout.flush()
+            os._exit(3)
+        yield from done
+
+
 def run(prop: str, tier: str, jobs: int, dump_known: bool = False) -> int:
     t0 = time.time()
     env.bind_repo()
@@ -182,7 +205,9 @@ def run(prop: str, tier: str, jobs: int, dump_known: bool = False) -> int:
         futs = [pool.submit(_work, i, items[i]) for i in order]
         # determinism self-test: the same items again, submitted last (land on other workers)
         futs2 = [pool.submit(_work, -1 - i, items[i]) for i in reversed(selftest_idx)]
-        for fut in as_completed(futs + futs2):
+        fut_item = {f: i for f, i in zip(futs, order)}
+        fut_item.update({f: i for f, i in zip(futs2, reversed(selftest_idx))})
+        for fut in _completed_or_stalled(pool, futs + futs2, fut_item, items, prop):
             idx, packed, err = fut.result()
             if err:
                 errors.append(err)
